@@ -73,7 +73,7 @@ def _lattice_case(task):
         probs.append("compute_angles changed by %.2g" % d)
     da, db = md.compute_dihedrals(a, [[0, 1, 2, 3]], periodic=periodic)[0, 0], md.compute_dihedrals(b, [[0, 1, 2, 3]], periodic=periodic)[0, 0]
     dd = abs(da - db); dd = min(dd, 2 * np.pi - dd)
-    if dd > 800 * tol and abs(abs(da) - np.pi) > 1e-3:
+    if rec["tordef"] and dd > 800 * tol and abs(abs(da) - np.pi) > 1e-3:
         probs.append("compute_dihedrals changed by %.2g" % dd)
     na = [sorted(x.tolist()) for x in md.compute_neighbors(a, 3.5 * G, [0], periodic=periodic)]
     nb = [sorted(x.tolist()) for x in md.compute_neighbors(b, 3.5 * G, [0], periodic=periodic)]
@@ -83,6 +83,11 @@ def _lattice_case(task):
     lb = [sorted(int(v) for v in x) for x in md.compute_neighborlist(b, 3.5 * G, periodic=periodic)]
     if la != lb:
         probs.append("compute_neighborlist changed")
+    want = [[j for j in range(4) if rec["nbr"][i][j]] for i in range(4)]
+    if la != want:
+        probs.append("compute_neighborlist of the start configuration is %s, the specification's neighbour relation is %s" % (la, want))
+    if na != [[j for j in want[0]]]:
+        probs.append("compute_neighbors of atom 0 in the start configuration is %s, the specification's neighbour relation gives %s" % (na, want[0]))
     if not periodic:
         if abs(md.compute_rg(a)[0] - md.compute_rg(b)[0]) > 20 * tol:
             probs.append("compute_rg changed")
